@@ -76,6 +76,15 @@ def all_graphs(n):
 def random_graph(rng, kind):
     n = rng.randint(4, 14)
     bonds = []
+    if kind == "large":
+        # a polymer-like tree with a few dozen atoms and some six-rings (size-dependent code paths)
+        n = rng.randint(40, 70)
+        for i in range(1, n):
+            bonds.append((rng.randrange(max(0, i - 4), i), i))
+        for r in range(3):
+            b0 = n + 6 * r
+            bonds += [(b0 + i, b0 + (i + 1) % 6) for i in range(6)] + [(rng.randrange(n), b0)]
+        return [b for b in bonds if b[0] != b[1]] if not has_triangle(bonds) else random_graph(rng, "chain")
     if kind == "chain":
         bonds = [(i, i + 1) for i in range(n - 1)]
     elif kind == "branched":
@@ -290,6 +299,10 @@ def main(tier, seed, replay=None):
                         cases.append((scramble(rng, g), n, types_for(g, n), None, "exhaustive-n%d" % n))
             nrand = 90 if tier == "quick" else 1500
             kinds = ["chain", "branched", "ring", "ring-assembly", "metal-node", "disconnected"]
+            for i in range(2 if tier == "quick" else 10):
+                g = random_graph(rng, "large")
+                n = max(v for b in g for v in b) + 1
+                cases.append((scramble(rng, g), n, types_for(g, n), (None if i % 2 else rng.sample(range(n), 5)), "random-large"))
             for i in range(nrand):
                 g = random_graph(rng, kinds[i % len(kinds)])
                 n = max(v for b in g for v in b) + 1
